@@ -8,7 +8,8 @@ C17) it lists **every explicit dtype conversion**:
 
     to_cy(<value>, <T>)          -> callee "to_cy"
     <value>.astype(<T>)          -> callee "astype"
-    f(<value>, ..., dtype=<T>)   -> callee = dotted name of f (np.array, np.zeros, np.eye, ...)
+    np.f(<value>, ..., dtype=<T>) -> callee = dotted name of f (np.array, np.zeros, np.eye, ...)
+    <value>.m(..., dtype=<T>)    -> callee = method name (sum, mean, ...)
 
 as `Cast` records (method, callee, source text of the value, type name, kind int/float, bits);
 type names are resolved through `core/_ext/types.py` (ADJ -> BOOLTYPE -> np.int8 ...).
@@ -125,9 +126,18 @@ def collect_casts(resolve):
                 if not kws:
                     continue
                 ty = kws[0]
-                need(callee is not None, f"{f.name}: dtype= on a computed callee")
-                how = callee
-                val = node.args[0] if node.args else None
+                if callee is None:
+                    # a method of a computed value: `<expr>.sum(dtype=T)`, `<expr>.mean(dtype=T)`
+                    need(isinstance(node.func, ast.Attribute),
+                         f"{f.name}: dtype= on a computed callee {ast.unparse(node.func)}")
+                    how, val = node.func.attr, node.func.value
+                elif callee.split(".")[0] in ("np", "numpy"):
+                    how = callee
+                    val = node.args[0] if node.args else None
+                else:
+                    # `x.sum(dtype=T)` on a plain name / attribute chain
+                    need(isinstance(node.func, ast.Attribute), f"{f.name}: dtype= on {callee}")
+                    how, val = node.func.attr, node.func.value
             tname = dotted(ty)
             need(tname is not None, f"{f.name}: dtype is not a name: {ast.unparse(ty)}")
             kind, bits = resolve(tname)
